@@ -124,6 +124,19 @@ func C06(r *core.Run) {
 		}
 		add(at, sizes[rng.Intn(len(sizes))], timings[rng.Intn(3)])
 	}
+	// every early fault followed by an early 5xx while the producer is still streaming (both tiers):
+	// the second failure is the one whose reader may still be active when the third attempt starts
+	for i, f1 := range fails {
+		if f1.At > 100 || f1.At == -1 {
+			continue
+		}
+		for j, f2 := range fails {
+			if f2.Kind != "e5xx" || f2.At < 0 || f2.At > 100 {
+				continue
+			}
+			add([]c06Fault{f1, f2, {Kind: "ok", At: -1}}, []int{10, 3900, 5000}[(i+j+int(r.Seed))%3], timings[1+(i+j)%2])
+		}
+	}
 	if !r.Quick() {
 		// exhaustive pairs of early faults on the sizes around the replay limit
 		early := []c06Fault{}
